@@ -277,12 +277,17 @@ def _merge(seq):
 def check_from_chords(ctx, case):
     chordlist, dur, meter = case["chords"], case["duration"], case["meter"]
     track = Track()
+    key = case.get("key", "C") if meter is not None else "C"
     if meter is not None:
-        track.add_bar(Bar("C", (meter[0], meter[1])))
+        track.add_bar(Bar(key, (meter[0], meter[1])))
     r = ctx.ok("from_chords", track.from_chords, chordlist, dur)
     if failed(r):
         return
     ctx.check(r is track, "from_chords/returns-track", "")
+    # every bar that was opened on the way inherits key and meter of the bar before it
+    want_meter = tuple(meter) if meter is not None else (4, 4)
+    ctx.check(all(b.key.key == key and tuple(b.meter) == want_meter for b in track.bars), "from_chords/bars-inherit-key-and-meter",
+              lambda: "started in %r %r: bars are in %r" % (key, want_meter, [(b.key.key, tuple(b.meter)) for b in track.bars]))
     req = []
     for c in chordlist:
         _flatten(c, dur, req)
@@ -512,14 +517,16 @@ def _chordlist_st():
 def sub_from_chords(ctx, shard, n):
     combos = [[1, None], [2, None], [4, None], [1, [4, 4]], [2, [3, 4]], [4, [3, 4]], [2, [6, 8]], [1, [5, 4]], [1, [2, 2]],
               [2, [2, 4]], [4, [2, 4]], [4, [1, 4]], [1, [12, 8]], [2, [2, 2]]]
-    strat = st.tuples(_chordlist_st(), st.sampled_from(combos)).map(
-        lambda t: {"chords": t[0], "duration": t[1][0], "meter": t[1][1]})
+    strat = st.tuples(_chordlist_st(), st.sampled_from(combos), st.sampled_from(T.ALL_KEYS)).map(
+        lambda t: {"chords": t[0], "duration": t[1][0], "meter": t[1][1], "key": t[2]})
     ctx.enumerate("from_chords", check_from_chords, [
         {"chords": ["C", None, "G7", None], "duration": 1, "meter": None},
         {"chords": [["C"], None], "duration": 1, "meter": None},
         {"chords": [["C", None], ["G7", [None, "Am"]]], "duration": 1, "meter": None},
         {"chords": ["C", "F", "G"], "duration": 2, "meter": [3, 4]},
         {"chords": [None, None, "C"], "duration": 1, "meter": [5, 4]},
+        {"chords": ["C", "F", "G", "C"], "duration": 2, "meter": [3, 4], "key": "eb"},
+        {"chords": ["Am", None, "E7"], "duration": 1, "meter": [6, 8], "key": "F#"},
     ])
     ctx.given("from_chords", check_from_chords, strat, 300 if ctx.quick else 10000)
     tuned = st.fixed_dictionaries({"chords": st.lists(st.recursive(st.sampled_from(["C", "Am", "G7", "Em", "D", "F", "Dm7", "E7"]) | st.none(),
